@@ -254,7 +254,8 @@ class Session(object):
         self.co_n = getattr(self, "co_n", 100) + 1
         self.do("co new %d batch %s" % (self.co_n, self.batch_arg(data, pool)))
         a = "yield"
-        for _ in range(400):
+        limit = r.randint(1, 4) if r.random() < self.p.get("abandon_batch", 0.0) else 400   # the caller drops the generator half-way
+        for _ in range(limit):
             a = self.do("co step %d" % self.co_n)
             if a != "yield":
                 break
@@ -299,7 +300,10 @@ class Session(object):
             ps = list(ps) + [bad]
             if self.r.random() < 0.3:
                 self.r.shuffle(ps)
+        under = (self.r.choice(ps) if ps else self.any_lru()) + self.r.choice([b"", b"p:zz|"])
+        self.q("retrievewe " + hx(under)); self.q("retrieveprefix " + hx(under))
         r = self.do("delete %d %s" % (w, brack([hx(p) for p in ps])))
+        self.q("retrievewe " + hx(under)); self.q("retrieveprefix " + hx(under))
         if x < 0.25:                        # resolution below every listed prefix, right after the (refused) deletion
             for p in ps[:3]:
                 self.q("retrievewe " + hx(p + self.r.choice([b"", b"p:zz|"])))
@@ -320,7 +324,11 @@ class Session(object):
             ps.insert(self.r.randint(0, len(ps)), self.any_lru())
         if ps and self.r.random() < 0.15:
             ps.append(ps[0])
-        return self.do("deleteu " + brack([hx(p) for p in ps]))
+        under = (self.r.choice(ps) if ps else self.any_lru()) + self.r.choice([b"", b"p:zz|"])
+        self.q("retrievewe " + hx(under))
+        res = self.do("deleteu " + brack([hx(p) for p in ps]))
+        self.q("retrievewe " + hx(under))
+        return res
 
     def w_addruleram(self):
         st = stems_of(self.any_lru())
@@ -343,7 +351,10 @@ class Session(object):
         qs = self.probe_queries() if self.r.random() < 0.5 else []
         for q in qs:
             self.q(q)
+        under = p + self.r.choice([b"", b"p:zz|"])
+        self.q("retrieveprefix " + hx(under)); self.q("retrievewe " + hx(under))
         res = self.do("rmprefix %s %s" % (hx(p), arg))
+        self.q("retrievewe " + hx(under)); self.q("retrieveprefix " + hx(under))
         for q in qs:
             self.q(q)
         return res
@@ -358,7 +369,10 @@ class Session(object):
         qs = self.probe_queries() if self.r.random() < 0.3 else []
         for q in qs:
             self.q(q)
+        under = p + self.r.choice([b"", b"p:zz|"])
+        self.q("retrievewe " + hx(under))
         res = self.do("moveprefix %s %d %s" % (hx(p), w2, arg))
+        self.q("retrievewe " + hx(under)); self.q("webyprefix " + hx(p))
         for q in qs:
             self.q(q)
         return res
